@@ -15,7 +15,7 @@ DAY_FORMULA = ('{YEAR(vn),MONTH(vn),DAY(vn),DATEVALUE(vd),N(vd),DAYS(vd,vb),vd-v
                'DATEVALUE(DATE(vy,vm,vdd)),YEAR(vd),MONTH(vd),DAY(vd),WEEKDAY(vd,1),WEEKDAY(vd,2),WEEKDAY(vd,3),'
                'vd=vn,vd<vn+1,DATEVALUE(vnext),vd+0,vd+vk,vd-7,'
                'YEAR(DATE(vy,vm,vdd)),MONTH(DATE(vy,vm,vdd)),DAY(DATE(vy,vm,vdd)),WEEKDAY(DATE(vy,vm,vdd),2),'
-               'DAYS(vd,DATEVALUE(vb)),DAYS(vn,vb),DAYS(DATEVALUE(vd),N(vb))}')
+               'DAYS(vd,DATEVALUE(vb)),DAYS(vn,vb),DAYS(DATEVALUE(vd),N(vb)),WEEKDAY(vd,vtf),WEEKDAY(vd,vtf+1)}')
 
 
 def enc_serial(v):
@@ -48,6 +48,7 @@ def day_obs(p, n):
     p.set_variable('vy', fl(d.year))
     p.set_variable('vm', fl(d.month))
     p.set_variable('vdd', fl(d.day))
+    p.set_variable('vtf', 2.0 if n % 2 else 1.0)       # a numbering type that arrives as a float (4/2)
     p.set_variable('vnext', d + datetime.timedelta(days=1) if n < LAST else d)
     k = 7 if n + 7 <= LAST else 0
     p.set_variable('vk', k)
@@ -79,6 +80,8 @@ def time_obs(p, h, m, s):
 
 def iso_obs(p, y, mo, d, h, m, s, sep='T'):
     t = '%04d-%02d-%02d%s%02d:%02d:%02d' % (y, mo, d, sep, h, m, s)
+    if (y + mo + d + s) % 4 == 0:
+        t += ['.5', '.250', '.000', '.999'][(h + m) % 4]      # ISO 8601 allows a fraction of the second
     p.set_variable('vt', t)
     return {'kind': 'iso', 'in': {'y': y, 'mo': mo, 'd': d, 'h': h, 'm': m, 's': s, 'text': t},
             'out': value_of(p, '{YEAR(vt),MONTH(vt),DAY(vt),HOUR(vt),MINUTE(vt),SECOND(vt)}')}
